@@ -20,7 +20,7 @@ type identity struct {
 	id   string // node id (128 hex) or wallet address (0x…)
 }
 
-var nodeIdents, walletIdents, lcWalletIdents []*identity
+var nodeIdents, walletIdents, lcWalletIdents, upNodeIdents []*identity
 var identByName = map[string]*identity{}
 var nameByReal = map[string]string{}
 var realReplacer *strings.Replacer
@@ -55,6 +55,12 @@ func init() {
 		lc = append(lc, &identity{name: w.name + "lc", key: w.key, id: strings.ToLower(w.id)})
 	}
 	lcWalletIdents = lc
+	// n0up, n1up: the keys of n0 / n1 under the upper-case spelling of the node id - other nodes to the pool's store
+	// (ids are opaque strings), and signatures made over that spelling verify
+	for _, n := range nodeIdents[:2] {
+		upNodeIdents = append(upNodeIdents, &identity{name: n.name + "up", key: n.key, id: strings.ToUpper(n.id)})
+	}
+	lc = append(lc, upNodeIdents...)
 	for _, id := range append(append(append([]*identity{}, nodeIdents...), walletIdents...), lc...) {
 		identByName[id.name] = id
 		nameByReal[id.id] = id.name
